@@ -4,6 +4,7 @@ import hashlib
 import io
 import os
 import random
+import signal
 import warnings
 import wave
 
@@ -429,19 +430,38 @@ def sphere_header(nchan, nsamp, au, byte_format="01"):
     return h + b" " * (1024 - len(h))
 
 
+class ImplTimeout(Exception):
+    pass
+
+
+def _on_vtalarm(*_):
+    raise ImplTimeout()
+
+
+IMPL_CPU_LIMIT = 4.0  # seconds of CPU for one read_signal call (a decoder stuck on a truncated stream)
+
+
 def impl_decode(body, nchan, nsamp, au, dtype, byte_format="01"):
     """-> ("ok", flat list, shape) | ("err", class name)"""
     from pydrobert.speech import util
 
     f = io.BytesIO(sphere_header(nchan, nsamp, au, byte_format) + body)
-    with warnings.catch_warnings():
-        warnings.simplefilter("ignore")
-        try:
-            arr = util.read_signal(f, dtype=dtype, force_as="sph")
-        except IOError:
-            return ("err", "IOError")
-        except Exception as e:  # noqa
-            return ("err", type(e).__name__)
+    old = signal.signal(signal.SIGVTALRM, _on_vtalarm)
+    signal.setitimer(signal.ITIMER_VIRTUAL, IMPL_CPU_LIMIT)
+    try:
+        with warnings.catch_warnings():
+            warnings.simplefilter("ignore")
+            try:
+                arr = util.read_signal(f, dtype=dtype, force_as="sph")
+            except IOError:
+                return ("err", "IOError")
+            except ImplTimeout:
+                return ("err", "no result after %gs CPU" % IMPL_CPU_LIMIT)
+            except Exception as e:  # noqa
+                return ("err", type(e).__name__)
+    finally:
+        signal.setitimer(signal.ITIMER_VIRTUAL, 0)
+        signal.signal(signal.SIGVTALRM, old)
     arr = np.asarray(arr)
     return ("ok", arr.reshape(-1).tolist(), tuple(arr.shape), str(arr.dtype))
 
@@ -667,6 +687,8 @@ def run(ctx, driver):
         s = r.choice(base)
         au = s.hdr["ftype"] in AU_TYPES
         kind = r.choice(["trunc", "trunc", "trunc", "badcmd", "badversion", "badtype", "trailing"])
+        if ctx.hist.get("impl_no_result", 0) >= 6:
+            break  # the decoder hangs on malformed input: already reported, do not wait for more
         needed = 5 + 4 * ((s.nbits + 31) // 32)
         expect_err = True
         extra = dict(malformed=kind)
@@ -720,6 +742,8 @@ def run(ctx, driver):
         dt = None
         got = impl_decode(body, s.hdr["nchan"], s.nsamp, au, None, "10" if s.hdr["ftype"] == 3 else "01")
         ctx.case(small_case(s, dt, extra), kind="malformed:" + kind)
+        if got[0] == "err" and got[1].startswith("no result"):
+            ctx.count("impl_no_result")
         if expect_err:
             if got != ("err", "IOError"):
                 ctx.violation(replay_case(s, dt, body, extra), "IOError", describe(got, None),
